@@ -80,7 +80,9 @@ type (
 	stringD1 string
 )
 
-var utf16Encoder = unicode.UTF16(unicode.BigEndian, unicode.IgnoreBOM).NewEncoder() // ucs2 is utf16 actually
+// ucs2 is utf16 actually.
+// An encoder keeps state between calls, and images are built by several connections at once: every use gets its own.
+var utf16Encoding = unicode.UTF16(unicode.BigEndian, unicode.IgnoreBOM)
 
 // volumeDescriptorHeader represents the data in bytes 0-6
 // of a Volume Descriptor as defined in ECMA-119 8.1
@@ -353,7 +355,7 @@ func mangleStrA(in string, joliet bool) stringA {
 	}, in)
 
 	if joliet {
-		ret, _ = utf16Encoder.String(ret)
+		ret, _ = utf16Encoding.NewEncoder().String(ret)
 	}
 
 	return stringA(ret)
@@ -375,7 +377,7 @@ func mangleStrD(in string, joliet bool) stringD {
 	}, in)
 
 	if joliet {
-		ret, _ = utf16Encoder.String(ret)
+		ret, _ = utf16Encoding.NewEncoder().String(ret)
 	}
 
 	return stringD(ret)
@@ -393,7 +395,7 @@ func mangleStrD1(in string, joliet bool) stringD1 {
 	}, in)
 
 	if joliet {
-		ret, _ = utf16Encoder.String(ret)
+		ret, _ = utf16Encoding.NewEncoder().String(ret)
 	}
 
 	return stringD1(ret)
